@@ -206,3 +206,33 @@ pub fn node_at<'r>(g: &'r AstGrep<StrDoc<HL>>, idx: usize) -> ast_grep_core::Nod
 pub fn idx_of(n: &ast_grep_core::Node<StrDoc<HL>>) -> usize {
   n.node_id() - 1
 }
+
+/// every pre-order parent vector of 1..=nmax (<= 4) nodes: 1 + 1 + 2 + 5 = 9 shapes.
+/// Returns (shapes, sizes, count).
+pub fn all_shapes(nmax: usize) -> ([[u8; MAXN]; 9], [usize; 9], usize) {
+  let mut pv = [[0u8; MAXN]; 9];
+  let mut ns = [0usize; 9];
+  let mut cnt = 0;
+  let mut n = 1;
+  while n <= nmax && n <= 4 {
+    let mut p2 = 0;
+    while p2 < 2 {
+      let mut p3 = 0;
+      while p3 < 3 {
+        let mut parent = [0u8; MAXN];
+        parent[2] = p2;
+        parent[3] = p3;
+        let fresh = (n > 2 || p2 == 0) && (n > 3 || p3 == 0);
+        if fresh && TreeData::is_preorder(n, &parent) {
+          pv[cnt] = parent;
+          ns[cnt] = n;
+          cnt += 1;
+        }
+        p3 += 1;
+      }
+      p2 += 1;
+    }
+    n += 1;
+  }
+  (pv, ns, cnt)
+}
